@@ -183,7 +183,22 @@ func main() {
 	}
 
 	var cases []Case
-	if o.Replay != "" {
+	searching := o.Search != ""
+	if searching {
+		// failing-input search: variants of the cases on which model and implementation disagreed (fresh
+		// cases when there are none), oracle only
+		seeds := readSeeds(o.Search)
+		for i := 0; i < o.N; i++ {
+			cr := r.Fork()
+			if len(seeds) == 0 {
+				c := genCase(cr)
+				c.Origin = "search-fresh"
+				cases = append(cases, c)
+				continue
+			}
+			cases = append(cases, variant(cr, seeds[cr.Intn(len(seeds))]))
+		}
+	} else if o.Replay != "" {
 		var c Case
 		if vh.ReadReplayCase(o.Replay, &c) {
 			c.Origin = "replay"
@@ -275,6 +290,9 @@ func main() {
 				}
 			}
 			run.Fail(idx, f.sig, detail, small)
+		}
+		if searching {
+			continue
 		}
 		terms = append(terms, fmt.Sprintf("(%d, %s)", idx, coqCase(c, pages)))
 		if len(terms) >= shard {
